@@ -58,7 +58,7 @@ add("C18", "jaxpr2smt",
 
 add("C19", "jaxpr2smt",
     "bounded symbolic execution of the jaxprs of the live rex.rl wrapper step functions around an inner environment whose results are uninterpreted functions; z3 decides the one-step laws (incl. non-linear real arithmetic for pooled moments); counterexamples replayed on the real wrappers with the oracle returning the model's values",
-    "One-step laws for every input/history summary: Environment.step == graph.step with the supervisor output set from the action; AutoReset (stored and fresh init); LogWrapper accounting invariant; Squash/Clip action laws (within bounds, mutual inverses modulo listed tanh/atanh axioms); running observation/return normalisation == exact pooled mean/variance merge. Bounded: batch 2(3), obs dim 1(2). Environment.step is checked with user pre/post-step hooks that write every node's state (incl. the supervisor's) and an output computed from the incoming state.",
+    "One-step laws for every input/history summary: Environment.step == graph.step with the supervisor output set from the action; AutoReset (stored and fresh init); LogWrapper accounting invariant; Squash/Clip action laws (within bounds, mutual inverses modulo listed tanh/atanh axioms); running observation/return normalisation == exact pooled mean/variance merge. Bounded: batch 2(3), obs dim 1(2). Environment.step is checked with user pre/post-step hooks that write every node's state (incl. the supervisor's) and an output computed from the incoming state. Wrapper stackings (log/auto-reset in both orders, fixed and fresh init, a three-deep stack): the stack's step accepts what its reset returned and keeps the reward/flag/initial-state/log-counter laws.",
     "floats as reals; tanh/atanh/sqrt uninterpreted with the axioms named in each obligation; 'statistics of everything seen' claimed as the merge law relative to the wrappers' 1e-4 pseudo-count prior; fresh-init auto-reset passes through modulo the advanced rng",
     "DESIGN.md §6 C19")
 
